@@ -83,6 +83,7 @@ class Session:
         self.u = ModelSpec.from_spec(UFORMULA)
         self.spec1 = None
         self.heap = {}
+        self.mat = None      # ONE materializer instance bound to d2, shared by the operations MF, MN, MR
 
     def heap_fps(self):
         out = {"d1": fp_frame(self.d1), "d2": fp_frame(self.d2), "formula": fp_formula(self.f), "uspec": fp_spec(self.u),
@@ -120,6 +121,17 @@ class Session:
             mm = self.ensure_spec1().subset(["A"]).get_model_matrix(self.d1, context=self.ctx, drop_rows=drop)
         elif op == "P":
             mm = pickle.loads(pickle.dumps(self.ensure_spec1())).get_model_matrix(self.d2, context=self.ctx, drop_rows=drop)
+        elif op in ("MF", "MN", "MR"):
+            from formulaic.materializers import PandasMaterializer
+
+            if self.mat is None:
+                self.mat = PandasMaterializer(self.d2, context=self.ctx)
+            if op == "MF":
+                mm = self.mat.get_model_matrix(FORMULA, drop_rows=drop)
+            elif op == "MN":
+                mm = self.mat.get_model_matrix(FORMULA, output="sparse", drop_rows=drop)
+            else:
+                mm = self.mat.get_model_matrix(self.ensure_spec1(), drop_rows=drop)
         elif op == "UPD":
             mm = self.ensure_spec1().update(output="numpy").get_model_matrix(self.d2, context=self.ctx, drop_rows=drop)
         else:
@@ -129,7 +141,7 @@ class Session:
 
 def run_history(hist):
     s = Session()
-    needs = any(op in ("R", "S", "P", "UPD") for op in hist)
+    needs = any(op in ("R", "S", "P", "UPD", "MR") for op in hist)
     rec = {"heap0": None, "steps": []}
     if needs:
         s.ensure_spec1()          # the spec of B1 is a live object from the start of such histories
